@@ -595,6 +595,12 @@ def seq_concat(I, ctx, fr, a, b, node):
     qb = I._as_seq(ctx, b) if ib is None else None
     et = (qa or qb)
     if et is None:
+        if (isinstance(a, VObj) or isinstance(b, VObj)) and not fr.spec:
+            # an object of unknown class on one side: `+` is whatever its __add__/__radd__ does -- some new object,
+            # or a TypeError
+            if ctx.nondet(2, '+ on an opaque object') == 1:
+                I.raise_exc(ctx, 'TypeError', 'unsupported operand type(s) for +', node)
+            return VObj(Z.fresh('sum', Z.Obj))
         raise Unsupported('+ on %r, %r' % (a, b), node)
     et = et[1]
     try:
